@@ -272,6 +272,7 @@ theorem C17_name_unit_fixed (a a' : Arr α) (e : Edit α) (h : edit a e = some a
     a'.name = a.name ∧ a'.unit = a.unit :=
   ⟨(edit_some_cases h).1, (edit_some_cases h).2.1⟩
 
+omit [Num α] in
 /-- **C17.** The constructor names the elements of a named array `name_0, name_1, …`. -/
 theorem C17_names_mk (name unit : String) (ps : List (α × α)) (hn : name ≠ "") :
     Named (mk name unit ps) := by
@@ -283,11 +284,6 @@ theorem C17_names_mk (name unit : String) (ps : List (α × α)) (hn : name ≠ 
     the names were before. -/
 theorem C17_names_reindexed (a a' : Arr α) (e : Edit α) (h : edit a e = some a')
     (he : ∀ i x, e ≠ .setItem i x) : Named a' := by
-  obtain ⟨hn, -, hc⟩ := edit_some_cases h
-  obtain ⟨n', u', els'⟩ := a'
-  simp only at hn hc
-  subst hn
-  have hno : ∀ k c, e ≠ .setItem k c := he
   intro i hi
   cases e with
   | setItem k x => exact absurd rfl (he k x)
@@ -332,7 +328,7 @@ theorem C17_names_edit (a a' : Arr α) (e : Edit α) (hn : a.name ≠ "") (ha : 
   · have hi' : i < a.elems.length := by simpa using hi
     rw [List.getElem_set]
     split
-    · rename_i hki; subst hki; trace_state; simp
+    · rename_i hki; subst hki; rfl
     · exact ha i hi'
 
 /-- **C17.** An accepted edit keeps `run`'s array name; so does a rejected one. -/
@@ -362,6 +358,7 @@ theorem C17_names_run (a : Arr α) (es : List (Edit α)) (hn : a.name ≠ "") (h
       have hfix := C17_name_unit_fixed a a' e h
       exact ih a' (by rw [hfix.1]; exact hn) (C17_names_edit a a' e hn ha h)
 
+omit [Num α] in
 /-- **C17.** Every element the constructor makes carries the array's unit. -/
 theorem C17_units_mk (name unit : String) (ps : List (α × α)) : Unitful (mk name unit ps) := by
   intro el hel
@@ -438,5 +435,185 @@ theorem C17_mk_run (name unit : String) (ps : List (α × α)) (es : List (Edit 
   · rw [C17_run_refines, pairs_mk]
   · exact (C17_run_name_unit _ es).1
   · exact (C17_run_name_unit _ es).2
+
+/-! ## 4. Item assignment of a bare number; lengths -/
+
+/-- **C17.** `a[i] = c` with a bare number `c`, accepted: `i` normalises to a position `k`, the
+    length is unchanged, element `k` has value `c` and keeps its uncertainty (and its name and
+    unit), and every other element is unchanged. -/
+theorem C17_setitem_number_keeps_uncertainty (a a' : Arr α) (i : Int) (c : α)
+    (h : setItem a i (.num c) = some a') :
+    ∃ k, pyIndex a.elems.length i = some k ∧
+      ∃ (hk : k < a.elems.length) (hl : a'.elems.length = a.elems.length),
+        (a'.elems[k]'(by omega)).v = c ∧
+        (a'.elems[k]'(by omega)).e = (a.elems[k]).e ∧
+        (a'.elems[k]'(by omega)).name = (a.elems[k]).name ∧
+        (a'.elems[k]'(by omega)).unit = (a.elems[k]).unit ∧
+        ∀ j (hj : j < a.elems.length), j ≠ k → a'.elems[j]'(by omega) = a.elems[j] := by
+  unfold setItem at h
+  split at h
+  · cases h
+  · rename_i h0
+    rw [(C17_pos_spec _ _).1 (by omega)] at h
+    split at h
+    · cases h
+    · rename_i k hk
+      have hlt := C17_pyIndex_lt hk
+      cases h
+      refine ⟨k, hk, hlt, by simp, ?_, ?_, ?_, ?_, ?_⟩
+      · simp
+      · simp
+      · simp
+      · simp
+      · intro j hj hjk
+        have : ¬ k = j := fun hh => hjk hh.symm
+        simp [this]
+
+/-- **C17.** The number of elements after an accepted edit: append and insert add the number of
+    pairs the operand stands for, delete removes one (and needs a non-empty array), item
+    assignment keeps the length. -/
+theorem C17_length (a a' : Arr α) (e : Edit α) (h : edit a e = some a') :
+    match e with
+    | .append x => ∃ ps, operandPairs x = some ps ∧ a'.elems.length = a.elems.length + ps.length
+    | .insert _ x =>
+        ∃ ps, operandPairs x = some ps ∧ a'.elems.length = a.elems.length + ps.length
+    | .delete _ => 0 < a.elems.length ∧ a'.elems.length = a.elems.length - 1
+    | .setItem _ _ => a'.elems.length = a.elems.length := by
+  have hr := (C17_refines_list a e).1 a' h
+  have hlen : ∀ l, l = pairs a' → l.length = a'.elems.length := by
+    intro l hl; rw [hl, length_pairs]
+  cases e with
+  | append x =>
+    simp only [listEdit] at hr ⊢
+    cases hx : operandPairs x with
+    | none => simp [hx] at hr
+    | some ps =>
+      simp only [hx, Option.map_some, Option.some.injEq] at hr
+      refine ⟨ps, rfl, ?_⟩
+      have := hlen _ hr
+      simp only [List.length_append, length_pairs] at this
+      omega
+  | insert i x =>
+    simp only [listEdit] at hr ⊢
+    cases hx : operandPairs x with
+    | none => simp [hx] at hr
+    | some ps =>
+      cases hk : pyInsertPos (pairs a).length i with
+      | none => simp [hx, hk] at hr
+      | some k =>
+        simp only [hx, hk, Option.some.injEq] at hr
+        refine ⟨ps, rfl, ?_⟩
+        have hle := C17_pyInsertPos_le hk
+        have := hlen _ hr
+        simp only [List.length_append, List.length_take, List.length_drop, length_pairs]
+          at this hle
+        omega
+  | delete i =>
+    simp only [listEdit] at hr ⊢
+    cases hk : pyIndex (pairs a).length i with
+    | none => simp [hk] at hr
+    | some k =>
+      simp only [hk, Option.map_some, Option.some.injEq] at hr
+      have hlt := C17_pyIndex_lt hk
+      have := hlen _ hr
+      rw [List.length_eraseIdx, if_pos hlt] at this
+      rw [length_pairs] at this hlt
+      omega
+  | setItem i x =>
+    simp only [listEdit] at hr ⊢
+    cases hk : pyIndex (pairs a).length i with
+    | none => simp [hk] at hr
+    | some k =>
+      simp only [hk] at hr
+      have hlt := C17_pyIndex_lt hk
+      cases x with
+      | num c =>
+        simp only [List.getElem?_eq_getElem hlt, Option.map_some, Option.some.injEq] at hr
+        have := hlen _ hr
+        simpa [length_pairs] using this.symm
+      | pair v e =>
+        cases hp : itemPair (Item.pair v e) with
+        | none => simp [hp] at hr
+        | some p =>
+          simp only [hp, Option.map_some, Option.some.injEq] at hr
+          have := hlen _ hr
+          simpa [length_pairs] using this.symm
+      | meas v e =>
+        cases hp : itemPair (Item.meas v e) with
+        | none => simp [hp] at hr
+        | some p =>
+          simp only [hp, Option.map_some, Option.some.injEq] at hr
+          have := hlen _ hr
+          simpa [length_pairs] using this.symm
+      | bad => simp [itemPair] at hr
+
+/-! ## 5. Aggregates (over ℝ) -/
+
+/-- **C17.** `sum()` is Σ x_i ± sqrt(Σ s_i²). -/
+theorem C17_sum (a : Arr ℝ) :
+    ArrayEdit.sum a = ((values a).sum, Real.sqrt (((errors a).map (· ^ 2)).sum)) := by
+  simp only [ArrayEdit.sum, Stats.sumPair, numSum_eq, num_sqrt]
+  have : (errors a).map Num.sq = (errors a).map (· ^ 2) := by
+    apply List.map_congr_left
+    intro x _
+    simp [Num.sq, sq]
+  rw [this]
+
+/-- **C17.** `mean()` is the arithmetic mean ± std()/√n. -/
+theorem C17_mean (a : Arr ℝ) :
+    (ArrayEdit.mean a).1 = (values a).sum / (values a).length ∧
+    (ArrayEdit.mean a).2 = ArrayEdit.std a / Real.sqrt (values a).length := by
+  simp [ArrayEdit.mean, ArrayEdit.std, Stats.meanPair, Stats.mean, Stats.sem, numSum_eq]
+
+/-- **C17.** `std()` is the sample standard deviation (divisor n − 1) of the central values. -/
+theorem C17_std (a : Arr ℝ) :
+    ArrayEdit.std a
+      = Real.sqrt ((((values a).map
+          (fun x => (x - (values a).sum / (values a).length) ^ 2)).sum)
+          / ((values a).length - 1 : ℕ)) := by
+  simp only [ArrayEdit.std, Stats.std1, Stats.var1, Stats.ssq, Stats.devs, Stats.mean,
+    numSum_eq, num_sqrt, num_div, num_ofNat, List.map_map]
+  have : (Num.sq ∘ fun x : ℝ => Num.sub x ((values a).sum / ((values a).length : ℝ)))
+      = fun x => (x - (values a).sum / ((values a).length : ℝ)) ^ 2 := by
+    funext x
+    simp [Num.sq, sq]
+  rw [this]
+
+/-- **C17.** The aggregates only see the pairs: `values` / `errors` are the two projections of
+    `pairs`, so after any history they are those of the Python list. -/
+theorem C17_values_errors_run (a : Arr α) (es : List (Edit α)) :
+    values (run a es) = (listRun (pairs a) es).map Prod.fst ∧
+    errors (run a es) = (listRun (pairs a) es).map Prod.snd := by
+  rw [← C17_run_refines]
+  simp [values, errors, pairs, List.map_map, Function.comp_def]
+
+/-! ## 6. Non-vacuity -/
+
+/-- the array `x = [1 ± 0.1, 2 ± 0.2] m` used by the examples -/
+noncomputable def C17_exampleArray : Arr ℝ := mk "x" "m" [(1, 0.1), (2, 0.2)]
+
+/-- hypotheses of `C17_names_edit` / `C17_units_edit` are satisfiable, and an edit is accepted -/
+example : C17_exampleArray.name ≠ "" ∧ Named C17_exampleArray ∧ Unitful C17_exampleArray ∧
+    ∃ a', edit C17_exampleArray (.append (.one (.num 3))) = some a' ∧ pairs a' = [(1, 0.1), (2, 0.2), (3, 0)] := by
+  refine ⟨by simp [C17_exampleArray, mk], C17_names_mk _ _ _ (by simp), C17_units_mk _ _ _, ?_⟩
+  have h := C17_refines_list_conv C17_exampleArray (.append (.one (.num 3)))
+  refine h.1 _ ?_
+  simp [listEdit, operandPairs, itemPair, C17_exampleArray, pairs_mk]
+
+/-- item assignment with a negative index is accepted and keeps the uncertainty -/
+example : listEdit [((1 : ℝ), (0.1 : ℝ)), (2, 0.2)] (.setItem (-1) (.num 5))
+    = some [(1, 0.1), (5, 0.2)] := by
+  simp [listEdit, pyIndex]
+
+/-- an out-of-range index, a negative uncertainty and a non-numeric operand are rejected -/
+example : edit C17_exampleArray (.setItem 2 (.num 5)) = none ∧ edit C17_exampleArray (.delete (-3)) = none ∧
+    edit C17_exampleArray (.append (.one (.pair 1 (-1)))) = none ∧
+    edit C17_exampleArray (.insert 0 (.many [.num 1, .bad])) = none := by
+  refine ⟨(C17_refines_list_conv _ _).2 ?_, (C17_refines_list_conv _ _).2 ?_,
+    (C17_refines_list_conv _ _).2 ?_, (C17_refines_list_conv _ _).2 ?_⟩
+  · simp [listEdit, pyIndex, C17_exampleArray, pairs_mk]
+  · simp [listEdit, pyIndex, C17_exampleArray, pairs_mk]
+  · simp [listEdit, operandPairs, itemPair]
+  · simp [listEdit, operandPairs, itemPair]
 
 end QExPy.ArrayEdit
